@@ -683,4 +683,59 @@ theorem run_append (o : Fit) (a b : List Step) :
     simp only [List.cons_append, run, finalState]
     cases (step o s).2 <;> simp [ih]
 
+/-! ### the NaN-free table -/
+
+theorem NanInsert.usable_eq {clean rows : List Row} (h : NanInsert clean rows) : usableRows rows = clean := by
+  induction h with
+  | nil => rfl
+  | keep r hx hy _ ih =>
+    have : r.usable = true := by simp [Row.usable, hx, hy]
+    simp only [usableRows, List.filter_cons, this, if_true] at ih ⊢
+    rw [ih]
+  | nan n hn _ ih =>
+    have : n.usable = false := by
+      unfold Row.usable
+      rcases hn with h | h <;> simp [h]
+    simp only [usableRows, List.filter_cons, this] at ih ⊢
+    simpa using ih
+
+theorem NanInsert.clean_usable {clean rows : List Row} (h : NanInsert clean rows) : usableRows clean = clean := by
+  induction h with
+  | nil => rfl
+  | keep r hx hy _ ih =>
+    have : r.usable = true := by simp [Row.usable, hx, hy]
+    simp only [usableRows, List.filter_cons, this, if_true] at ih ⊢
+    rw [ih]
+  | nan n _ _ ih => exact ih
+
+/-- a table without NaN is a NaN-insertion of itself -/
+theorem NanInsert.refl_of_usable : ∀ (clean : List Row), (∀ r ∈ clean, r.x.isSome = true ∧ r.y.isSome = true) →
+    NanInsert clean clean
+  | [], _ => .nil
+  | r :: l, h => .keep r (h r (by simp)).1 (h r (by simp)).2
+      (NanInsert.refl_of_usable l (fun q hq => h q (by simp [hq])))
+
+/-- on a NaN-free table the points and weights the mechanism hands to `weighted_linreg` are the specified ones -/
+theorem fitPts_eq_specPts (wt : Weighting) (clean : List Row) (h : usableRows clean = clean) :
+    fitPts wt clean = specPts wt clean := by
+  unfold fitPts specPts fitWeights weights
+  simp only [h]
+  cases wt with
+  | builtin b => simp only [weightsFromWeighting_eq_spec]
+  | custom => rfl
+
+theorem length_ge_two_of_ne {α} {l : List α} {p q : α} (hp : p ∈ l) (hq : q ∈ l) (hne : p ≠ q) : 2 ≤ l.length := by
+  match l, hp, hq with
+  | [], hp, _ => simp at hp
+  | [a], hp, hq =>
+    simp only [List.mem_singleton] at hp hq
+    exact absurd (hp.trans hq.symm) hne
+  | _ :: _ :: _, _, _ => simp
+
+theorem specPts_length (wt : Weighting) (clean : List Row) : (specPts wt clean).length = clean.length := by
+  unfold specPts mkPts
+  cases wt with
+  | builtin b => simp [specWeights]
+  | custom => simp
+
 end Pew.Calib
